@@ -23,6 +23,8 @@ def gen(args):
         Yi = P.centred_lattice(rng, n, p, 4)
         if rng.random() < 0.15:
             Yi[:, 0] = Xi[:, int(rng.integers(m))]          # a target that is exactly one of the features
+        if p == 2 and rng.random() < 0.2:
+            Yi[:, 1] = Yi[:, 0]                              # the same property given twice (it counts twice in the objective)
         X, Y = Xi / 4.0, Yi / 4.0
         kmax = min(n, m)
         k = int(rng.integers(1, kmax + 1))
